@@ -5,6 +5,7 @@ go 1.23.0
 require (
 	github.com/fatedier/frp v0.0.0
 	github.com/fatedier/golib v0.5.1
+	github.com/samber/lo v1.47.0
 )
 
 require (
@@ -32,7 +33,6 @@ require (
 	github.com/prometheus/common v0.48.0 // indirect
 	github.com/prometheus/procfs v0.12.0 // indirect
 	github.com/quic-go/quic-go v0.48.2 // indirect
-	github.com/samber/lo v1.47.0 // indirect
 	github.com/songgao/water v0.0.0-20200317203138-2b4b6d7c09d8 // indirect
 	github.com/spf13/cobra v1.8.0 // indirect
 	github.com/spf13/pflag v1.0.5 // indirect
